@@ -41,7 +41,8 @@ type dirRepo struct {
 	wg        sync.WaitGroup
 	wgBlock   chan struct{}
 	timeCheck time.Time
-	timeMod   time.Time
+	timeIndex time.Time // mod time of index.json when it was last loaded or saved
+	timeMod   time.Time // last change to the repo, decides whether a GC pass visits it
 	name      string
 	path      string
 	exists    bool
@@ -622,7 +623,7 @@ func (dr *dirRepo) indexLoad(force, locked bool) error {
 		return err
 	}
 	dr.timeCheck = time.Now()
-	if dr.timeMod == stat.ModTime() {
+	if dr.timeIndex.Equal(stat.ModTime()) {
 		// file is unchanged from previous loaded version
 		return nil
 	}
@@ -632,7 +633,11 @@ func (dr *dirRepo) indexLoad(force, locked bool) error {
 		return err
 	}
 	dr.index = parseIndex
-	dr.timeMod = stat.ModTime()
+	dr.timeIndex = stat.ModTime()
+	if stat.ModTime().After(dr.timeMod) {
+		// loading the index does not hide a later change (blob upload or delete) from the GC
+		dr.timeMod = stat.ModTime()
+	}
 	dr.exists = true
 
 	mod, err := indexIngest(dr, &dr.index, dr.conf, locked)
@@ -678,6 +683,7 @@ func (dr *dirRepo) indexSave(locked bool) error {
 	if err != nil {
 		return fmt.Errorf("failed to stat index.json for tracking mod time: %w", err)
 	}
+	dr.timeIndex = fi.ModTime()
 	dr.timeMod = fi.ModTime()
 	return nil
 }
